@@ -6,6 +6,7 @@ use crate::proto::streams::recv::verif_h as recv_h;
 use crate::proto::streams::state::verif_h as st_h;
 use crate::proto::streams::store::Resolve;
 use crate::proto::streams::verif_h::{cfg, SymBuf};
+use crate::proto::PollReset;
 
 static ZEROS: [u8; 16] = [0; 16];
 
@@ -68,6 +69,66 @@ pub fn c18_data_inner_recv_data_budget() {
     kani::cover!(matches!(&r, Err(Error::GoAway(_, Reason::ENHANCE_YOUR_CALM, _))), "flood_limit");
     kani::cover!(true, "end");
     let _ = key;
+    std::mem::forget(r);
+    std::mem::forget(send_buffer);
+    std::mem::forget(inner);
+}
+
+fn mk_inner(role: peer::Dyn) -> Inner {
+    let c = cfg();
+    Inner {
+        counts: Counts::new(role, &c),
+        actions: Actions { recv: Recv::new(role, &c), send: Send::new(&c), task: None, conn_error: None },
+        store: Store::new(),
+        refs: 1,
+    }
+}
+
+/// C15.ignore / C09.race / C17: the real `Inner::recv_reset` with a GOAWAY cut-off.
+/// RST_STREAM for a stream *above* the last-stream-id we sent is ignored; for a stream at
+/// or below it (a stream the application was given) it is processed: the stream closes
+/// with the peer's code, its slot is freed, the id is forgotten.  Stream 0 is a
+/// connection error.
+pub fn c15_ignore_inner_recv_reset() { inner_recv_reset(false) }
+pub fn c09_inner_recv_reset_stream_zero() { inner_recv_reset(true) }
+fn inner_recv_reset(zero: bool) {
+    let role = peer::Dyn::Server;
+    let mut inner = mk_inner(role);
+    let send_buffer: SendBuffer<SymBuf> = SendBuffer { inner: Mutex::new(crate::proto::streams::buffer::verif_h::with_capacity(4)) };
+    let id = StreamId::from(1);
+    let mut stream = Stream::new(id, 0, 65_535);
+    st_h::set_inner_open_streaming(&mut stream.state);
+    stream.ref_count = 1;
+    stream.is_counted = true;
+    counts_h::set_counts(&mut inner.counts, 0, 10, 1, usize::MAX);
+    let key = inner.store.insert(id, stream).key();
+    // we announced GOAWAY(max) earlier (MAX = no GOAWAY yet)
+    let maxv: u32 = kani::any();
+    kani::assume(maxv <= 0x7fff_ffff);
+    recv_h::set_ids(&mut inner.actions.recv, Ok(StreamId::from(3)), StreamId::from(1), StreamId::from(maxv));
+    let code: u32 = kani::any();
+    let fid = if zero { StreamId::ZERO } else { id };
+    let r = inner.recv_reset(&send_buffer, frame::Reset::new(fid, code.into()));
+    let p = inner.store.resolve(key);
+    if zero {
+        assert!(matches!(&r, Err(Error::GoAway(_, Reason::PROTOCOL_ERROR, _))), "RST_STREAM on stream 0 must be a connection error");
+        assert!(!p.state.is_closed());
+    } else if 1 > maxv {
+        assert!(r.is_ok() && !p.state.is_closed(), "C15.ignore: RST_STREAM above the GOAWAY cut-off must be ignored");
+    } else {
+        assert!(r.is_ok(), "legal RST_STREAM rejected");
+        assert!(p.state.is_remote_reset(), "C15: RST_STREAM for a stream at or below the last-stream-id was not processed (the stream never completes, shutdown never drains)");
+        let pr = p.state.ensure_reason(PollReset::Streaming);
+        match &pr {
+            Ok(Some(rs)) => assert!(u32::from(*rs) == code, "C17.surface: peer's reset code"),
+            _ => panic!("reset not recorded"),
+        }
+        std::mem::forget(pr); // (dropping a `crate::Error` walks io::Error's Box<dyn Error> drop glue)
+        assert!(!p.is_counted && counts_h::get_counts(&inner.counts).1 == 0, "C05.free: reset stream still holds a slot");
+    }
+    kani::cover!(!zero && maxv == 1, "exactly_at_cut_off");
+    kani::cover!(!zero && maxv == 0, "above_cut_off");
+    kani::cover!(true, "end");
     std::mem::forget(r);
     std::mem::forget(send_buffer);
     std::mem::forget(inner);
